@@ -9,8 +9,8 @@ use rustc_middle::mir::{
     TerminatorKind, UnwindAction,
 };
 use rustc_middle::ty::adjustment::PointerCoercion;
-use rustc_middle::ty::print::{with_crate_prefix, with_no_trimmed_paths as wntp};
-macro_rules! with_no_trimmed_paths { ($e:expr) => { with_crate_prefix!(wntp!($e)) } }
+use rustc_middle::ty::print::{with_crate_prefix, with_no_trimmed_paths as wntp, with_no_visible_paths};
+macro_rules! with_no_trimmed_paths { ($e:expr) => { with_no_visible_paths!(with_crate_prefix!(wntp!($e))) } }
 use rustc_middle::ty::print::PrintTraitRefExt;
 use rustc_middle::ty::util::IntTypeExt;
 use rustc_middle::ty::{
@@ -636,6 +636,32 @@ impl<'tcx> Cx<'tcx> {
                     o.set("v", J::Int(v));
                 }
             } else if let MirConst::Unevaluated(u, _) = c {
+                o.set("uneval", J::s(with_no_trimmed_paths!(tcx.def_path_str(u.def))));
+            }
+        } else if let (TyKind::Ref(_, inner, _), true) = (cty.kind(), !c.has_non_region_param()) {
+            // promoted `&<int>` (assert_eq! operands): read the pointee from the const allocation
+            if inner.is_integral() || inner.is_bool() {
+                if let Ok(ConstValue::Scalar(rustc_middle::mir::interpret::Scalar::Ptr(ptr, _))) = c.eval(tcx, env, span) {
+                    let (prov, off) = ptr.prov_and_relative_offset();
+                    if let Some(rustc_middle::mir::interpret::GlobalAlloc::Memory(mem)) = tcx.try_get_global_alloc(prov.alloc_id()) {
+                        if let Ok(l) = tcx.layout_of(env.as_query_input(*inner)) {
+                            let sz = l.size.bytes() as usize;
+                            let o0 = off.bytes() as usize;
+                            let alloc = mem.inner();
+                            if o0 + sz <= alloc.len() && sz <= 16 {
+                                let bytes = alloc.inspect_with_uninit_and_ptr_outside_interpreter(o0..o0 + sz);
+                                let mut v: u128 = 0;
+                                for (i, b) in bytes.iter().enumerate() {
+                                    v |= (*b as u128) << (8 * i);
+                                }
+                                let vi: i128 = if inner.is_signed() { l.size.sign_extend(v) as i128 } else { v as i128 };
+                                o.set("deref_v", J::Int(vi));
+                            }
+                        }
+                    }
+                }
+            }
+            if let MirConst::Unevaluated(u, _) = c {
                 o.set("uneval", J::s(with_no_trimmed_paths!(tcx.def_path_str(u.def))));
             }
         } else if let MirConst::Unevaluated(u, _) = c {
